@@ -4,6 +4,7 @@ import RedoModel.DoFiles
 import RedoModel.LogRec
 import RedoModel.Commit
 import RedoModel.DepsWire
+import RedoModel.CoreWire
 import RedoModel.TokensWire
 import RedoModel.SqlTxnWire
 import RedoModel.LocksWire
@@ -122,6 +123,7 @@ def respond (line : String) : String :=
       "ops=" ++ ",".intercalate (d.ops.map showOp) ++ " rv=" ++ toString d.rv ++ " ok=" ++ toString d.recordedOk
     | _, _, _, _ => "bad-op"
   | ["deps-run", d, n, rules, ops] => DepsWire.respond d n rules ops
+  | ["core-run", n, graph, ops] => CoreWire.respond n graph ops
   | ["tokens-replay", k, evs] => TokensWire.respond k evs
   | ["sqltxn-replay", evs] => SqlTxnWire.respond evs
   | ["locks-replay", evs] => LocksWire.respond evs
